@@ -1027,6 +1027,9 @@ func (e *Engine) bitOp(op string, a, b Term, rt *types.Basic) Term {
 			e.u.AddAxiom(name, Term{ax2, SBool})
 		}
 		e.abstract("bit operation " + name + " treated as an uninterpreted function with range axioms")
+		if e.rootContract != nil && e.rootContract.Flags["bitprecise"] != "" {
+			e.bitPreciseAxioms(op, name, rt)
+		}
 	}
 	return App(name, SInt, a, b)
 }
